@@ -3,6 +3,8 @@
 package server
 
 import (
+	"time"
+
 	"github.com/mimiro-io/datahub/internal/verifh"
 )
 
@@ -177,4 +179,63 @@ func VerifC07Contextual(h *verifh.H) {
 	// the shared store itself filters at once
 	e2, err := hs.hub.Store.GetEntity(av.ID, nil, true)
 	h.Assert(err == nil && (e2 == nil || (len(e2.Properties) == 0 && len(e2.References) == 0)), "the store filters the deleted dataset at once")
+}
+
+// VerifC07CrashDelete: if the process dies in the middle of DeleteDataset (or
+// rename), after restart the dataset is either still fully there or deleted
+// for every read API; the other dataset is unaffected either way.
+func VerifC07CrashDelete(h *verifh.H) {
+	env := VerifConfig(h, time.Hour)
+	g := newMGraph("a", "b")
+	bv := &mVersion{ID: "ns0:e1", Props: map[string]string{"ns0:v": "x"}, Refs: map[string][]string{"ns0:p1": {"ns0:e2"}}}
+	g.write("b", []*mVersion{bv})
+	av := drawVersion(h, []string{"ns0:e1", "ns0:e2"}, []string{"ns0:e2", "ns0:e3"}, famMixed)
+	g.write("a", []*mVersion{av})
+	rename := h.Choice("rename", 2) == 1
+	if h.BeforeCrash() {
+		hub := VerifOpenHub(env)
+		da, err := hub.Dsm.CreateDataset("a", nil)
+		h.Assert(err == nil, "create a")
+		db, err := hub.Dsm.CreateDataset("b", nil)
+		h.Assert(err == nil, "create b")
+		h.Assert(db.StoreEntities([]*Entity{mkEntity(bv)}) == nil, "write b")
+		h.Assert(da.StoreEntities([]*Entity{mkEntity(av)}) == nil, "write a")
+		h.CrashWindowStart()
+		if rename {
+			_, err := hub.Dsm.UpdateDataset("a", &UpdateDatasetConfig{ID: "c"})
+			h.Assert(err == nil, "rename accepted")
+		} else {
+			h.Assert(hub.Dsm.DeleteDataset("a") == nil, "delete accepted")
+		}
+	}
+	h.CrashAndRecover()
+	hs := &vHistory{hub: VerifOpenHub(env), g: g, dsn: []string{"a", "b"}}
+	gotB := vObsCore(h, hs.hub, "b")
+	h.Assert(gotB == mObsCore(g, "b"), "the other dataset is unaffected by a crash inside delete/rename :: got="+gotB+" want="+mObsCore(g, "b"))
+	wantA := mObsCore(g, "a")
+	if rename {
+		a, c := hs.hub.Dsm.GetDataset("a"), hs.hub.Dsm.GetDataset("c")
+		h.Assert((a != nil) != (c != nil), "after a crash inside rename the content is reachable under exactly one name")
+		name := "a"
+		if c != nil {
+			name = "c"
+			g.renameDS("a", "c")
+		}
+		got := vObsCore(h, hs.hub, name)
+		wantA = mObsCore(g, name)
+		h.Assert(got == wantA, "the renamed dataset keeps all content across the crash :: got="+got+" want="+wantA)
+		if h.Acked() {
+			h.Assert(name == "c", "an acknowledged rename is in effect after the crash")
+		}
+	} else {
+		if hs.hub.Dsm.GetDataset("a") != nil {
+			got := vObsCore(h, hs.hub, "a")
+			h.Assert(got == wantA, "a dataset whose delete did not take effect is fully there :: got="+got+" want="+wantA)
+			h.Assert(!h.Acked(), "an acknowledged delete is in effect after the crash")
+		} else {
+			g.deleteDS("a")
+		}
+	}
+	hs.vCheckUnscoped(h, "after crash")
+	h.Observe("acked", h.Acked())
 }
